@@ -5,6 +5,7 @@ Property theorems and non-vacuity examples only; helper lemmas are in Lemmas/Tri
 import StyluaModel.Lemmas.Trivia
 import StyluaModel.Lemmas.SortReq
 import StyluaModel.Lemmas.Eof
+import StyluaModel.Lemmas.Semi
 
 namespace StyluaModel.C03
 open StyluaModel.Trivia StyluaModel.TriviaLemmas StyluaModel.StrLit
@@ -74,6 +75,42 @@ theorem C03_eof_comments (eol : List Char) (lead : List Triv) (o : List Out)
   · rename_i hall
     rw [← h, EofLemmas.commentsOut_of_allWs _ hall]; rfl
   · rw [← h, EofLemmas.commentsOut_append, EofLemmas.commentsOut_popWs]; simp [commentsOut]
+
+/-! ## the semicolon: kept, added or removed (format_block) -/
+
+open StyluaModel.Semi in
+/-- **a semicolon that stays or is added**: the comments of its own leading and trailing trivia (through
+load_token_trivia, so with normalised text) and those of the statement's trailing trivia, which is moved
+behind it, all appear once and in order - for trivia lists of any length -/
+theorem C03_semi_required (eol : List Char) (written : Bool) (T : List Out) (sl st : List Triv) :
+    commentsOut (outs (fmtSemi eol true written T sl st)) =
+      (if written then SemiLemmas.norm eol (commentsIn sl) ++ SemiLemmas.norm eol (commentsIn st) else []) ++ commentsOut T :=
+  SemiLemmas.semi_required eol written T sl st
+
+open StyluaModel.Semi in
+/-- **a semicolon that is dropped**: given that the statement's trailing trivia ends with the newline the
+statement formatters put there, every comment of the statement and of the semicolon survives, once, in order,
+with its text untouched -/
+theorem C03_semi_removed (eol : List Char) (T' : List Out) (sl st : List Triv) :
+    commentsOut (outs (fmtSemi eol false true (T' ++ [Out.newline]) sl st)) =
+      commentsOut T' ++ commentsIn sl ++ commentsIn st :=
+  SemiLemmas.semi_removed eol T' sl st
+
+open StyluaModel.Semi in
+/-- the hypothesis is needed: the code drops the *last element* of the trailing trivia, whatever it is -/
+theorem C03_semi_removed_needs_newline :
+    commentsOut (outs (fmtSemi ['\n'] false true [Out.space, Out.comment (.block 0) ['a']] [] [])) = [] := by decide
+
+open StyluaModel.Semi in
+/-- ... and although no comment token is lost, the comments of a dropped semicolon are appended *behind* a
+trailing line comment of the statement, on the same line: in the printed text they become part of that comment
+(`local x = 1 -- a⏎; --[[b]]` comes out as `local x = 1 -- a --[[b]]`; reproduced on the binary, one of the
+D23 family of known findings) -/
+theorem C03_semi_swallow_witness :
+    let out := outs (fmtSemi ['\n'] false true [Out.space, Out.comment .line ['a'], Out.newline] []
+      [.ws false, .comment (.block 0) ['b'], .ws true])
+    out = [Out.space, Out.comment .line ['a'], Out.space, Out.comment (.block 0) ['b'], Out.newline] ∧
+    lineSafe out = false := by decide
 
 /-! ## non-vacuity -/
 example : commentsOut (load ['\n'] .leading
